@@ -89,13 +89,31 @@ NA = {
 }
 NOT_BUILT = "rules for this property are designed in DESIGN.md but not built yet; not claimed until they run"
 
+def further(p, c, runs, docs):
+    """Rules that run under the property but are not spelled out in the hand-written claim text: named with
+    the first clause of their own description, so that the claim always lists exactly what the check runs."""
+    extra = [r for r in runs.get(p, []) if r not in c.get("rules", [])]
+    if not extra:
+        return ""
+    parts = []
+    for r in sorted(extra):
+        d = docs.get(r, "")
+        d = d.split(": ")[0] if len(d.split(": ")[0]) > 60 else d
+        d = d[:220].rsplit(" ", 1)[0] + ("…" if len(docs.get(r, "")) > 220 else "")
+        parts.append(f"[{r}] {d}")
+    return " Further structural clauses decided by the same check (full statements in DESIGN.md §2A and `ctylint -list`): " + "; ".join(parts) + "."
+
 def main():
     out = subprocess.run([os.path.join(V, "bin/ctylint"), "-list"], capture_output=True, text=True).stdout
-    have = set(); ruleids = set()
+    have = set(); ruleids = set(); runs = {}; docs = {}
     for l in out.splitlines():
         f = l.split("\t")
         if len(f) >= 2 and f[0].startswith("C"):
             have.add(f[0]); ruleids.add(f[1])
+            docs[f[1]] = f[3] if len(f) > 3 else ""
+            also = f[4][5:].split(",") if len(f) > 4 and f[4].startswith("also=") and f[4][5:] else []
+            for p in [f[0]] + also:
+                runs.setdefault(p, []).append(f[1])
     props = [json.loads(l)["id"] for l in open(os.path.join(V, "properties.jsonl"))]
     checks, na = [], []
     for p in props:
@@ -111,7 +129,7 @@ def main():
               "evidence_file": f"/verif/evidence/{p}.json",
               "replay_cmd_template": "./bin/ctylint -replay {path}",
               "engine": "ctylint",
-              "level_claimed": {"category": "other", "text": c["text"], "design_ref": f"DESIGN.md §2 {p}"},
+              "level_claimed": {"category": "other", "text": c["text"] + further(p, c, runs, docs), "design_ref": f"DESIGN.md §2 {p} and §2A"},
               "level_note": c["note"] + TB,
               "technique": "static analysis: " + c["tech"],
             })
